@@ -1,7 +1,10 @@
 //! Topology views (C19): drives des::net::topology::Topology through the public API on a
 //! simulation whose gate graph is wired by the script.
 //!
-//! script:  nmod cnt_1 .. cnt_nmod   nch (len mode m0 g0 m1 g1 ..){nch}   query*
+//! script:  p  nmod cnt_1 .. cnt_nmod   nch (len mode m0 g0 m1 g1 ..){nch}   query*
+//!   p: position of the process-global ModuleId counter: ids are burnt (ModuleId::gen is public) until the
+//!   next one is p mod 2^16, then the simulation is built.  First output record: 10 nmod d z with d = the
+//!   module ids of the simulation are pairwise distinct, z = number of modules whose id is ModuleId::NULL.
 //!   modules m0.. (at most 24) get cnt_i gates g0.. (at most 40) in this order; every chain
 //!   g0 - g1 - .. - gh is wired by h connect calls (mode bit 0: last pair first, bit 1: swapped
 //!   orientation) provided it has at least one hop and all its gates exist, are distinct and unused.
@@ -66,13 +69,22 @@ fn bit(mask: u64, i: u64) -> bool {
 }
 
 fn run_line(nums: &[u64]) -> Vec<u64> {
+    if nums.is_empty() {
+        return vec![];
+    }
     let mut cur = Cur::new(nums);
+    let p = (cur.next() % 65536) as u16;
     let mut counts = cur.take_lp();
     counts.truncate(24);
     let counts: Vec<usize> = counts.iter().map(|c| (*c).min(40) as usize).collect();
     let nm = counts.len();
 
     let mut sim = Sim::new(());
+    // move the process-global id counter: gen() returns the current value c, the next one is c + 1
+    let c = ModuleId::gen().0;
+    for _ in 0..p.wrapping_sub(c.wrapping_add(1)) {
+        let _ = ModuleId::gen();
+    }
     for i in 0..nm {
         sim.node(format!("m{i}"), Fallback);
     }
@@ -85,6 +97,9 @@ fn run_line(nums: &[u64]) -> Vec<u64> {
         .map(|i| sim.get(&format!("m{i}").as_str().into()).expect("module"))
         .collect();
     let world = World { ids: mods.iter().map(|m| m.id()).collect() };
+    let distinct = (0..nm).all(|i| (i + 1..nm).all(|j| world.ids[i] != world.ids[j]));
+    let nulls = world.ids.iter().filter(|i| **i == ModuleId::NULL).count();
+    let mut out: Vec<u64> = vec![10, nm as u64, distinct as u64, nulls as u64];
 
     // chains
     let mut used: Vec<Vec<bool>> = counts.iter().map(|c| vec![false; *c]).collect();
@@ -125,7 +140,6 @@ fn run_line(nums: &[u64]) -> Vec<u64> {
         }
     }
 
-    let mut out: Vec<u64> = Vec::new();
     let mut topo: Topology<(), ()> = Topology::default();
     while !cur.done() {
         let tag = cur.peek().unwrap();
